@@ -114,6 +114,19 @@ def check(case):
         if len(outs) < 2:
             raise Violation("shuffle_ignores_seed", "%s: 8 different seeds give the same arrangement of environment %d" % (ctx, e))
         lab.append("seed_varied")
+    huge = [e for e, n in enumerate(sizes) if n >= 17]
+    if huge and case.get("vary_seed", True):
+        # the arrangement "changes with random_state": any two of these seeds coincide with probability <= 1/17! each
+        e = huge[0]
+        seen = {}
+        for s in (0, 1, 2, 7, 42, 43, 2 ** 31, 2 ** 32 - 1):
+            f = must(lib(utils.split_data, data, ratios, random_state=s), ctx + " [seed %d]" % s)
+            key = np.concatenate([np.asarray(f[i][e]) for i in range(nf)], axis=0)[:, 0].tobytes()
+            if key in seen:
+                raise Violation("seeds_coincide", "%s: random_state=%d and random_state=%d give the same arrangement of the %d rows of environment %d"
+                                % (ctx, seen[key], s, sizes[e], e))
+            seen[key] = s
+        lab.append("seeds_pairwise_distinct")
     for d0, d1 in zip(keep, data):
         if not np.array_equal(d0, d1):
             raise Violation("input_modified", "%s modified the caller's arrays" % ctx)
@@ -139,11 +152,15 @@ def _compositions(total, parts):
 def split_case(draw):
     ne = draw(st.integers(1, 4))
     sizes = [draw(st.sampled_from([0, 1, 2, 3, 5, 7, 9, 10, 11, 13, 17, 25, 33, 40]) | st.integers(0, 40)) for _ in range(ne)]
-    nf = draw(st.integers(1, 6))
-    m = draw(st.sampled_from([2, 3, 4, 5, 6, 7, 8, 9, 10, 10, 12, 16, 20]))
+    many = draw(st.integers(0, 5)) == 0
+    nf = draw(st.integers(7, 100)) if many else draw(st.integers(1, 6))
+    m = draw(st.sampled_from([nf, nf, 2 * nf + 1, 88, 95, 63, 97, 120])) if many else draw(st.sampled_from([2, 3, 4, 5, 6, 7, 8, 9, 10, 10, 12, 16, 20]))
+    m = max(m, 2)
     # composition of m into nf non-negative parts
     cuts = sorted(draw(st.lists(st.integers(0, m), min_size=nf - 1, max_size=nf - 1)))
     ks = [b - a for a, b in zip([0] + cuts, cuts + [m])]
+    if many and draw(st.booleans()):
+        ks, m = [1] * nf, nf                       # k equal folds of 1/k: the float sum drifts away from 1.0 by several ulp
     case = {"sub": "hyp", "sizes": sizes, "ratios": [fstr(Fraction(k, m)) for k in ks], "width": draw(st.sampled_from([1, 2, 3])),
             "rpres": draw(st.sampled_from(["list", "list", "tuple", "array"])),
             "seed": draw(st.sampled_from([0, None, 42, 1]) | st.integers(0, 2 ** 32 - 1))}
